@@ -9,7 +9,9 @@
           [@k] sub <cb|~> <timeout|~> | [@k] renew <k|u> <cb|~> <timeout|~> | [@k] unsub <k|u|~>
           [@k] set <x> <val> | [@k] burst <x>=<val>,... | adv <dt µs> | [@k] done <n> | [@k] fail <n> | [@k] setkey <sid> <key>
           [@k] o resp <status> <sid|~> <granted|~> | [@k] o notify <sid> <seq> <t> <url> <body> | [@k] o trig <x> <t>
-          [@k] o ret <sid> | [@k] o exc <sid>
+          [@k] o ret <sid> | [@k] o exc <sid> | [@k] h trig <x> <t>
+  `o trig` (observed through a hook on `trigger_event`) is compared with the model only; `h trig` is the attribution
+  of the following NOTIFYs to a variable that the harness derived from the HTTP-level observations: only judged.
   val = i<int> | b0 | b1 | s<hex>;  body = <x>=<hex of the element text>,... or ~.
   Text travels as hex tokens (`-` = empty string, `~` = absent).
 -/
@@ -167,7 +169,15 @@ def stepLine (st : St) (line : String) (toks : List String) : St :=
              else note { (setSvc st k { sv with expected := es }) with corrOk := false }
                     s!"corr: line {st.lineNo} impl[{fmtObs o}] model[{fmtObs e}]"
            | [] => note { st with corrOk := false } s!"corr: line {st.lineNo} impl[{fmtObs o}] model[nothing]"
-         judge st k (.obs o) line)
+         -- which variable triggered is seen through a hook (`trigger_event`): it ties the model, it is not judged
+         match o with
+         | .trig _ _ => st
+         | _ => judge st k (.obs o) line)
+  | "h" :: rest =>
+      -- an attribution found by the harness from the HTTP-level observations: judged, not compared with the model
+      (match parseObs rest with
+       | some (.trig x t) => judge st k (.obs (.trig x t)) line
+       | _ => note { st with corrOk := false } s!"bad attribution line [{line}]")
   | _ =>
       (match parseOp toks with
        | none => note { st with corrOk := false } s!"bad-op [{line}]"
